@@ -43,7 +43,7 @@ theorem coreRun_eq_branch [One P] [Mul P] (B : Backend Q P) (cfg : Cfg) (c : Cir
     (coreRun B cfg .sv c bits0 st mr rng).res = .ok ((branch B c bits0 st r).st, (branch B c bits0 st r).prob) ∧
     (coreRun B cfg .sv c bits0 st mr rng).bits = (branch B c bits0 st r).bits := by
   have hrel : Rel c.ncb (⟨bits0, fields0 st mr⟩ : Core Q P) rng ⟨bits0, some st, 1, r⟩ := by
-    refine ⟨rfl, rfl, rfl, ?_, Or.inl rfl, hb⟩
+    refine ⟨rfl, rfl, rfl, ?_, Or.inl rfl, hb, rfl⟩
     rcases hsrc with h | ⟨h1, h2⟩
     · subst h
       by_cases hne : r = []
